@@ -166,6 +166,17 @@ inline bool filtersOff()
     if (off < 0) { const char* e = getenv("C03_NO_FILTER"); off = (e && *e == '1') ? 1 : 0; }
     return off == 1;
 }
+// A filter is active only while its finding is OPEN: the runner exports the ids of the open findings (known_findings.jsonl and
+// regress/C03/PROPOSED_FINDINGS.jsonl) as a comma-separated list in C03_OPEN_FINDINGS; run by hand without that variable, all
+// filters are active.  Once a finding is fixed its inputs are fuzzed again.
+inline bool filterActive(const char* id)
+{
+    if (filtersOff()) return false;
+    static const char* open = getenv("C03_OPEN_FINDINGS");
+    if (open == 0) return true;
+    const std::string hay = std::string(",") + open + ",";
+    return hay.find(std::string(",") + id + ",") != std::string::npos;
+}
 inline bool contains(const std::string& hay, const char* needle) { return hay.find(needle) != std::string::npos; }
 inline bool hasNonAscii(const std::string& s)
 {
